@@ -548,6 +548,11 @@ class Check(PropertyCheck):
                   "senc(sdec b)=b, ASCII fixed, method upper/encode round trip, b64decode(b64encode b)=b, json.loads(json.dumps x)=x. "
                   "Their answers are passed per case from the real functions (driver reports lib-miss if it needs an answer it was "
                   "not given; ASCII cases of sdec/senc/lower/strip/utf8 are computed by the driver). "
+                  "Routes: every case is exported by the real save.har command (export_har) to a FILE and read back with "
+                  "read_flows_from_paths (the statement's route), additionally through make_har/json.dumps/FlowReader in memory (@mem, the "
+                  "route the model tie uses: the file serialisation itself - json.dumps/loads and the UTF-8 file encoding - is the Json "
+                  "parameter of the model, only its law is assumed) and through the hardump option (SaveHar.done); the oracle is applied to "
+                  "each route. .zhar (zlib) files are not generated: FlowReader does not read them. "
                   "Outside the model: flows without response, missing (None) bodies, websocket messages, cookies/query/timing "
                   "fields of the HAR entry, trailers, charset names that denote byte-to-byte codecs; HTTP/1.0 is generated but "
                   "its version is outside the statement's quantifier and not demanded. Which oracle failures count as instances of a "
@@ -563,9 +568,11 @@ class Check(PropertyCheck):
             "distinct = distinct case; every case is non-trivial (a full export+import).")
     has_model = True
     parallel = False
-    budget = {"quick": 1500, "thorough": 30000}
-    time_budget = {"quick": 35, "thorough": 480}
+    budget = {"quick": 1000, "thorough": 30000}
+    time_budget = {"quick": 25, "thorough": 480}
     fingerprints = ["mitmproxy.addons.savehar:SaveHar.flow_entry", "mitmproxy.addons.savehar:SaveHar.make_har",
+                    "mitmproxy.addons.savehar:SaveHar.export_har", "mitmproxy.addons.savehar:SaveHar.done",
+                    "mitmproxy.io.io:read_flows_from_paths",
                     "mitmproxy.addons.savehar:SaveHar.format_multidict", "mitmproxy.io.har:fix_headers",
                     "mitmproxy.io.har:request_to_flow", "mitmproxy.io.io:FlowReader.stream",
                     "mitmproxy.http:Message.get_content", "mitmproxy.http:Message.set_content",
